@@ -53,7 +53,7 @@ RULE = ('(1) 2-word x 1-bit MemBlock, (nw,nr) write/read ports: every content (e
         'biased to 0, 2^aw-1, 2^31/2^32/2^63/2^64 neighbours and aliases mod 2^32 / 2^64, disabled ports colliding with '
         'enabled ones, read-during-write; write ports built in every form the API offers (EnabledWrite, plain <<=, Const enables, and one port '
         'under conditional_assignment with 1-3 branches mixing plain and EnabledWrite values, a disabled write being '
-        'either no branch or a taken branch whose own enable is 0); two instances of every simulator kind per design in one '
+        'either no branch or a taken branch whose own enable is 0); memories with no read port at all (observed through inspect_mem during and after the run); two instances of every simulator kind per design in one '
         'process, memory_value_map keyword omitted when nothing is initialised; (2b) cross-talk family (every third design): 2-3 MemBlocks over one address space, at least two '
         'WITHOUT a memory_value_map entry, each driven to read and overwrite the addresses the others wrote, and the '
         'twin design (two 2-word memories sharing the address inputs) under a De Bruijn walk of all 64 joint operations; '
@@ -81,6 +81,28 @@ M64 = (1 << 64) - 1
 _REPORTED = {}
 _CTX = []          # the (capped) ctx, for the structural gates inside the runners
 _WORKDIR = []
+_SNAP = [None]         # cycle after which every runner also looks at inspect_mem DURING the run (None: only at the end)
+
+
+class Res(tuple):
+    """(reads, finals[, port orders]) plus .mids = inspect_mem per memory after _SNAP cycles"""
+    mids = None
+
+
+def guarded(ctx, backend, info, fn):
+    """run one back-end; a simulator / pass that raises anything but the sanctioned rejection on an API-built memory
+    design is a finding with a concrete input, not a harness error"""
+    try:
+        return fn()
+    except PyrtlRejected:
+        raise
+    except Exception as e:
+        ctx.spec_violation('%s:raises-%s' % (backend, type(e).__name__),
+                           '%s raised %s on an API-built MemBlock design: %s' % (backend, type(e).__name__, str(e)[:200]),
+                           dict(info, backend=backend))
+        return None
+
+
 _PASS_EMPTY = [False]   # True: a memory without initial contents is passed as an explicit empty dict
 
 
@@ -227,13 +249,17 @@ def build_design(cfgs):
             ra = _operand(c.rk[j], c.aw, 'm%d_ra%d' % (k, j))
             o = pyrtl.Output(c.dw, 'm%d_o%d' % (k, j))
             o <<= m[ra]
+    if sum(c.nr for c in cfgs) == 0:
+        # a design whose memories are only written (log buffers, observed through inspect_mem) still has an interface
+        alive = pyrtl.Output(1, 'alive_out')
+        alive <<= pyrtl.Input(1, 'alive_in')
     return pyrtl.working_block()
 
 
 def steps_of(cfgs, hists, ncyc):
     """per-cycle input dicts from the per-memory EFFECTIVE histories (what each port presents to the memory):
     an operand that goes through a register is supplied one cycle earlier; a Const operand needs no input"""
-    steps = [dict() for _ in range(ncyc)]
+    steps = [({'alive_in': t & 1} if sum(c.nr for c in cfgs) == 0 else dict()) for t in range(ncyc)]
 
     def put(kind, name, t, v):
         if kind == 'in':
@@ -363,13 +389,18 @@ def run_python_sim(cls, block, cfgs, mems, inits, dflt, steps):
             except ShapeError as e:
                 _CTX[0].model_mismatch('FastSimulation generated program is not of the modelled shape: %s' % e,
                                        {'memories': [c.desc() for c in cfgs]})
-    for s in steps:
+    mids = None
+    for t, s in enumerate(steps):
+        if t == _SNAP[0]:
+            mids = [list(sim.inspect_mem(m).items()) for m in mems]
         sim.step(dict(s))
     tr = sim.tracer.trace
     reads = [[[tr['m%d_o%d' % (c.k, j)][t] for j in range(c.nr)] for t in range(len(steps))] for c in cfgs]
     finals = [list(sim.inspect_mem(m).items()) for m in mems]
     orders = [port_order(nets, c.k) for c in cfgs]
-    return reads, finals, orders
+    r = Res((reads, finals, orders))
+    r.mids = mids
+    return r
 
 
 def run_compiled(block, cfgs, mems, inits, steps, probes):
@@ -382,28 +413,40 @@ def run_compiled(block, cfgs, mems, inits, steps, probes):
     nets = list(block.logic_subset('@'))
     if _CTX:
         try:
-            c_program_shape(sim, cfgs, inits)
+            c_program_shape(sim, cfgs, inits, mems)
             _CTX[0].count('c_program_shape', 'lookups-then-guarded-inserts')
         except ShapeError as e:
             _CTX[0].model_mismatch('CompiledSimulation generated C is not of the modelled shape: %s' % e,
                                    {'memories': [c.desc() for c in cfgs]})
-    sim.run([dict(s) for s in steps])
+    def look():
+        out = []
+        for m, ps in zip(mems, probes):
+            insp = sim.inspect_mem(m)
+            vals = []
+            for a in ps:
+                try:
+                    vals.append(insp[a])
+                except pyrtl.PyrtlError:
+                    vals.append('PyrtlError')
+                except Exception as e:  # ctypes.ArgumentError ...
+                    vals.append('raised ' + type(e).__name__)
+            out.append(vals)
+        return out
+    mids = None
+    snap = _SNAP[0]
+    if snap is not None and 0 < snap < len(steps):
+        sim.run([dict(s) for s in steps[:snap]])
+        mids = look()
+        sim.run([dict(s) for s in steps[snap:]])
+    else:
+        sim.run([dict(s) for s in steps])
     tr = sim.tracer.trace
     reads = [[[tr['m%d_o%d' % (c.k, j)][t] for j in range(c.nr)] for t in range(len(steps))] for c in cfgs]
-    finals = []
-    for m, ps in zip(mems, probes):
-        insp = sim.inspect_mem(m)
-        vals = []
-        for a in ps:
-            try:
-                vals.append(insp[a])
-            except pyrtl.PyrtlError:
-                vals.append('PyrtlError')
-            except Exception as e:  # ctypes.ArgumentError ...
-                vals.append('raised ' + type(e).__name__)
-        finals.append(vals)
+    finals = look()
     orders = [port_order(nets, c.k) for c in cfgs]
-    return reads, finals, orders
+    r = Res((reads, finals, orders))
+    r.mids = mids
+    return r
 
 
 def post_mems(ctx, post, mems, what):
@@ -430,12 +473,17 @@ def run_post(ctx, cls, post, cfgs, pm, inits, dflt, steps, what):
     """Simulation-like class on a synthesized/optimized block; pm = [(key for memory_value_map, memory in block)]"""
     sim = cls(tracer=pyrtl.SimulationTrace(block=post), default_value=dflt, block=post,
               **mvm_kw([key for key, _ in pm], inits))
-    for s in steps:
+    mids = None
+    for t, s in enumerate(steps):
+        if t == _SNAP[0]:
+            mids = [list(sim.inspect_mem(inblock).items()) for (_, inblock) in pm]
         sim.step(dict(s))
     tr = sim.tracer.trace
     reads = [[[tr['m%d_o%d' % (c.k, j)][t] for j in range(c.nr)] for t in range(len(steps))] for c in cfgs]
     finals = [list(sim.inspect_mem(inblock).items()) for (_, inblock) in pm]
-    return reads, finals
+    r = Res((reads, finals))
+    r.mids = mids
+    return r
 
 
 def run_post_bitio(ctx, block, cfgs, mems, inits, dflt, steps):
@@ -531,7 +579,7 @@ def fast_program_shape(code, cfgs, dflt):
     return events
 
 
-def c_program_shape(sim, cfgs, inits):
+def c_program_shape(sim, cfgs, inits, mems=None):
     """the emitted C: create_hash_map(256, limbs) + one insert per initial item; in sim_run_step every read is
     lookup(mem, addr[0])[n], every write is `if (en[0]) { insert(mem, addr[0], data); }`, all lookups precede all inserts"""
     import copy
@@ -547,8 +595,8 @@ def c_program_shape(sim, cfgs, inits):
         raise ShapeError('hash_code is no longer key % h->size')
     ini = text[text.index('void initialize_mems() {'):text.index('static void sim_run_step')]
     body = text[text.index('static void sim_run_step'):]
-    for c, init in zip(cfgs, inits):
-        vn = sim.varname[c.mem]
+    for c, init, m_in_block in zip(cfgs, inits, mems or [c.mem for c in cfgs]):
+        vn = sim.varname[m_in_block]
         limbs = (c.dw + 63) // 64
         if '%s = create_hash_map(256, %d);' % (vn, limbs) not in ini:
             raise ShapeError('memory %d is not created as create_hash_map(256, %d)' % (c.k, limbs))
@@ -632,7 +680,10 @@ def verilog_fragment_via_reader(text, cfgs, mems):
     except VerilogShapeError:
         raise
     except vr.ReaderError as e:
-        raise VerilogShapeError('py/verilog_reader.py rejects the exported module: %s' % e)
+        # what that reader accepts (e.g. its limit on range widths) is C05's subject: fall back to the regex reader
+        if _CTX:
+            _CTX[0].count('verilog_reader(C05)', 'rejected the module: ' + str(e).split(':')[0][:50])
+        return None
     except Exception:
         return None
 
@@ -978,6 +1029,8 @@ def cross_reads(hists, mi):
 
 
 def nontrivial(hist):
+    if hist and not hist[0][1]:
+        return any(e for ws, _ in hist for _, _, e in ws)      # write-only memory: observed through inspect_mem
     seen = set()
     hit = False
     wrote = False
@@ -1018,6 +1071,10 @@ def random_part(ctx, chk, ndesigns, ncyc_range, compiled_every, post_every, veri
                 cfgs.append(MemCfg(k, aw, dw, nw, nr, tagged))
             pools = [addr_pool(rng, c.aw) for c in cfgs]
         for c, pool in zip(cfgs, pools):
+            if rng.random() < 0.15:
+                c.nr, c.rk = 0, []       # a memory the design only writes (log buffer): observed through inspect_mem
+            ctx.count('memory_observation', 'write-only: inspect_mem during and after the run' if c.nr == 0
+                      else 'read ports + inspect_mem')
             if not c.tagged and rng.random() < 0.22:
                 # the write port is described inside conditional_assignment: 1-3 branches on this memory, plain and
                 # EnabledWrite values mixed
@@ -1075,6 +1132,7 @@ def random_part(ctx, chk, ndesigns, ncyc_range, compiled_every, post_every, veri
         cfgs, dflt, steps, inits = case['cfgs'], case['dflt'], case['steps'], case['inits']
         di = case['di']
         _PASS_EMPTY[0] = case['pass_empty']
+        _SNAP[0] = case['ncyc'] // 2        # inspect_mem is also looked at DURING the run
         ctx.count('memories_without_initial_contents', 'explicit {}' if case['pass_empty'] else 'no memory_value_map entry',
                   sum(1 for i in inits if not i))
         block = build_design(cfgs)
@@ -1126,7 +1184,7 @@ def random_part(ctx, chk, ndesigns, ncyc_range, compiled_every, post_every, veri
                 alias, frag = verilog_memory_fragment(buf.getvalue(), cfgs, mems)
                 via = verilog_fragment_via_reader(buf.getvalue(), cfgs, mems)
                 if via is None:
-                    ctx.count('verilog_reader(C05)', 'unavailable')
+                    ctx.count('verilog_reader(C05)', 'not used')
                 else:
                     ctx.count('verilog_reader(C05)', 'used')
                     same = all(sorted(via[1][c.k][0]) == sorted(frag[c.k][0]) and
@@ -1140,17 +1198,30 @@ def random_part(ctx, chk, ndesigns, ncyc_range, compiled_every, post_every, veri
                 ctx.spec_violation('verilog:memory-block-shape', 'exported Verilog memory fragment: %s' % e,
                                    {'seed': ctx.seed, 'design': di, 'memories': [c.desc() for c in cfgs]})
         if di % post_every == 0:
-            post = pyrtl.synthesize(update_working_block=False, block=block)
-            pm = post_mems(ctx, post, mems, 'synthesize')
-            res['synth'] = run_post(ctx, pyrtl.Simulation, post, cfgs, pm, inits, dflt, steps, 'synthesize')
-            res['synth/fast'] = run_post(ctx, pyrtl.FastSimulation, post, cfgs, pm, inits, dflt, steps, 'synthesize')
-            pyrtl.optimize(update_working_block=True, block=post)
-            res['synth+opt'] = run_post(ctx, pyrtl.Simulation, post, cfgs, pm, inits, dflt, steps, 'optimize')
-            if di % (2 * post_every) == 0:
-                res['synth+opt/fast'] = run_post(ctx, pyrtl.FastSimulation, post, cfgs, pm, inits, dflt, steps, 'optimize')
-            else:
+            info = {'seed': ctx.seed, 'tier': ctx.tier, 'design': di, 'memories': [c.desc() for c in cfgs],
+                    'memory_value_maps': inits, 'default_value': dflt, 'histories': case['hists']}
+            with_c = dflt == 0 and di % (2 * post_every) == 0 and all(c.aw <= 64 for c in cfgs)
+
+            def compiled_on(blk, in_block_mems):
                 try:
-                    res['synth/1-bit-io'] = run_post_bitio(ctx, block, cfgs, mems, inits, dflt, steps)
+                    return run_compiled(blk, cfgs, in_block_mems, inits, steps, case['probes'])
+                except PyrtlRejected as e:
+                    raise RuntimeError('CompiledSimulation rejected the transformed design: %s' % e)
+            post = guarded(ctx, 'synthesize', info, lambda: pyrtl.synthesize(update_working_block=False, block=block))
+            if post is not None:
+                pm = post_mems(ctx, post, mems, 'synthesize')
+                inb = [m_in for _, m_in in pm]
+                res['synth'] = guarded(ctx, 'synth', info, lambda: run_post(ctx, pyrtl.Simulation, post, cfgs, pm, inits, dflt, steps, 'synthesize'))
+                res['synth/fast'] = guarded(ctx, 'synth/fast', info, lambda: run_post(ctx, pyrtl.FastSimulation, post, cfgs, pm, inits, dflt, steps, 'synthesize'))
+                if guarded(ctx, 'optimize(synthesized)', info, lambda: pyrtl.optimize(update_working_block=True, block=post) or True):
+                    res['synth+opt'] = guarded(ctx, 'synth+opt', info, lambda: run_post(ctx, pyrtl.Simulation, post, cfgs, pm, inits, dflt, steps, 'optimize'))
+                    if di % (2 * post_every) == 0:
+                        res['synth+opt/fast'] = guarded(ctx, 'synth+opt/fast', info, lambda: run_post(ctx, pyrtl.FastSimulation, post, cfgs, pm, inits, dflt, steps, 'optimize'))
+                    if with_c:
+                        res['synth+opt/compiled'] = guarded(ctx, 'synth+opt/compiled', info, lambda: compiled_on(post, inb))
+            if di % (2 * post_every) != 0:
+                try:
+                    res['synth/1-bit-io'] = guarded(ctx, 'synth/1-bit-io', info, lambda: run_post_bitio(ctx, block, cfgs, mems, inits, dflt, steps))
                 except pyrtl.PyrtlError as e:
                     ctx.spec_violation('synthesize:merge_io_vectors=False-rejects-memory-design',
                                        'synthesize(merge_io_vectors=False) or simulating its result raised on a MemBlock design: %s' % e,
@@ -1158,11 +1229,17 @@ def random_part(ctx, chk, ndesigns, ncyc_range, compiled_every, post_every, veri
             # optimize() alone on the word-level design
             b2 = build_design(cfgs)
             mems2 = [c.mem for c in cfgs]
-            pyrtl.optimize(update_working_block=True, block=b2)
-            res['opt'] = run_python_sim(pyrtl.Simulation, b2, cfgs, mems2, inits, dflt, steps)[:2]
+            if guarded(ctx, 'optimize', info, lambda: pyrtl.optimize(update_working_block=True, block=b2) or True):
+                res['opt'] = guarded(ctx, 'opt', info, lambda: run_python_sim(pyrtl.Simulation, b2, cfgs, mems2, inits, dflt, steps))
+                res['opt/fast'] = guarded(ctx, 'opt/fast', info, lambda: run_python_sim(pyrtl.FastSimulation, b2, cfgs, mems2, inits, dflt, steps))
+                if with_c:
+                    res['opt/compiled'] = guarded(ctx, 'opt/compiled', info, lambda: compiled_on(b2, mems2))
             for c, m in zip(cfgs, mems):
                 c.mem = m
+        for name in [n for n, r in res.items() if r is None]:
+            del res[name]
     _PASS_EMPTY[0] = False
+    _SNAP[0] = None
     # ---- Coq: the array spec and the three models decide, inside Coq, whether they agree with what
     #      the implementation produced (compact protocol, see Mem/MemHarness.v mem_check)
     exprs = []
@@ -1210,7 +1287,24 @@ def random_part(ctx, chk, ndesigns, ncyc_range, compiled_every, post_every, veri
                 r = res[backend]
                 if r[0][mi] is None:
                     continue
-                if backend == 'compiled/2nd instance':
+                mids = getattr(r, 'mids', None)
+                if mids is not None and mids[mi] is not None:
+                    # inspect_mem DURING the run: the array after the first `snap` cycles
+                    snap = case['ncyc'] // 2
+                    want = spec_run(init, dflt, hist[:snap])[1]
+                    if 'compiled' in backend:
+                        bad_mid = [(a, v, want.get(a, 0)) for a, v in zip(probes, mids[mi]) if v != want.get(a, 0)]
+                    else:
+                        got = dict(mids[mi])
+                        bad_mid = [(a, got.get(a, dflt), want.get(a, dflt)) for a in sorted(set(got) | set(want))
+                                   if got.get(a, dflt) != want.get(a, dflt)]
+                    if bad_mid:
+                        ctx.spec_violation('%s:inspect_mem-during-run-disagrees-with-array' % backend,
+                                           '%s: inspect_mem after %d cycles holds %s at address %d, the array holds %s'
+                                           % (backend, snap, bad_mid[0][1], bad_mid[0][0], bad_mid[0][2]),
+                                           dict(replay, backend=backend, history=hist[:snap], address=bad_mid[0][0],
+                                                expected=bad_mid[0][2], got=bad_mid[0][1]))
+                if backend != 'compiled' and 'compiled' in backend:
                     chk.compare(c, backend, init, 0, hist, py_reads, py_final, r[0][mi], r[1][mi], probes, replay, 'probes')
                 elif backend == 'compiled':
                     ok = chk.compare(c, backend, init, 0, hist, py_reads, py_final, r[0][mi], r[1][mi], probes, replay,
@@ -1414,6 +1508,7 @@ def walk_part(ctx, chk, walks):
         steps = steps_of([cfg], [hist], len(hist))
         be = tiny_backends(ctx, cfg, True)
         block, mem = be['block'], be['mem']
+        _SNAP[0] = len(hist) // 2
         for dflt in dflts:
             for content in inits:
                 res = {}
@@ -1427,9 +1522,23 @@ def walk_part(ctx, chk, walks):
                         res['compiled'] = run_compiled(block, [cfg], [mem], [content], steps, [[0, 1]])
                     except PyrtlRejected as e:
                         ctx.count('compiled_rejected_by_pyrtl', str(e)[:60])
+                info = {'tier': ctx.tier, 'memory': cfg.desc(), 'memory_value_map': content, 'default_value': dflt,
+                        'history': hist[:64], 'walk': cfg.label}
                 for name in ('synth', 'synth+opt'):
                     post, pm = be[name]
-                    res[name] = run_post(ctx, pyrtl.Simulation, post, [cfg], pm, [content], dflt, steps, name)
+                    res[name] = guarded(ctx, name, info, lambda: run_post(ctx, pyrtl.Simulation, post, [cfg], pm, [content],
+                                                                          dflt, steps, name))
+                    res[name + '/fast'] = guarded(ctx, name + '/fast', info, lambda: run_post(
+                        ctx, pyrtl.FastSimulation, post, [cfg], pm, [content], dflt, steps, name))
+                    if dflt == 0 and name == 'synth+opt' and content == inits[0]:
+                        def comp():
+                            try:
+                                return run_compiled(post, [cfg], [pm[0][1]], [content], steps, [[0, 1]])
+                            except PyrtlRejected as e:
+                                raise RuntimeError('CompiledSimulation rejected the transformed design: %s' % e)
+                        res[name + '/compiled'] = guarded(ctx, name + '/compiled', info, comp)
+                for name in [n for n, r in res.items() if r is None]:
+                    del res[name]
                 p_comp = res['compiled'][2][0] if 'compiled' in res else ident(nw)
                 py_reads, py_final = spec_run(content, dflt, hist)
                 bits = max(1, (len(ops) - 1).bit_length())
@@ -1441,6 +1550,7 @@ def walk_part(ctx, chk, walks):
                     natlist(res['sim'][2][0]), natlist(res['fast'][2][0]), natlist(p_comp)))
                 meta.append((cfg, hist, dflt, content, res, order, py_reads, py_final))
                 ctx.count('walk_cycles', '%dw%dr order %d, port operands: %s' % (nw, nr, order, cfg.label), len(hist))
+    _SNAP[0] = None
     out = ctx.coq_eval(exprs, IMPORTS, tag='c08walk', shard=1, jobs=15)
     for (cfg, hist, dflt, content, res, order, py_reads, py_final), v in zip(meta, out):
         flags, finals = [bool(x) for x in v[0]], v[1]
@@ -1452,9 +1562,21 @@ def walk_part(ctx, chk, walks):
             ctx.model_mismatch('walk: Coq array spec and Python array spec disagree (flags %s)' % flags, replay)
             continue
         for backend, r in sorted(res.items()):
+            mids = getattr(r, 'mids', None)
+            if mids is not None:
+                want = spec_run(content, dflt, hist[:len(hist) // 2])[1]
+                got = list(mids[0]) if 'compiled' in backend else [dict(mids[0]).get(a, dflt) for a in (0, 1)]
+                exp = [want.get(a, 0 if 'compiled' in backend else dflt) for a in (0, 1)]
+                if got != exp:
+                    ctx.spec_violation('%s:inspect_mem-during-run-disagrees-with-array' % backend,
+                                       '%s: inspect_mem after %d cycles holds %s at addresses 0,1; the array holds %s'
+                                       % (backend, len(hist) // 2, got, exp),
+                                       dict(replay, backend=backend, history=hist[:len(hist) // 2], expected=exp, got=got))
             if backend == 'compiled':
                 chk.compare(cfg, backend, content, 0, hist, py_reads, py_final, r[0][0], r[1][0], [0, 1], replay, 'probes',
                             tie=(flags[5], list(r[1][0]) == f3))
+            elif 'compiled' in backend:
+                chk.compare(cfg, backend, content, 0, hist, py_reads, py_final, r[0][0], r[1][0], [0, 1], replay, 'probes')
             else:
                 mfinal = {'sim': d1, 'fast': d2}.get(backend)
                 fl = {'sim': flags[3], 'fast': flags[4]}.get(backend, flags[3])
@@ -1757,23 +1879,34 @@ def rom_part(ctx, ndesigns, per_design):
                 steps.append(s)
             block = build(good)
             traces = {}
-            for name, mk in (('sim', lambda b: pyrtl.Simulation(tracer=pyrtl.SimulationTrace(block=b), block=b)),
-                             ('fast', lambda b: pyrtl.FastSimulation(tracer=pyrtl.SimulationTrace(block=b), block=b)),
-                             ('compiled', lambda b: pyrtl.CompiledSimulation(tracer=pyrtl.SimulationTrace(block=b), block=b))):
-                sim = mk(block)
-                for s in steps:
-                    sim.step(dict(s))
-                traces[name] = sim.tracer.trace
+            rom_info = [{'name': 'rom%d' % r['k'], 'rom': {x: r[x] for x in ('aw', 'bw', 'kind', 'flavour', 'pad')},
+                         'data': r['spec_data']} for r in good]
+
+            def run_rom(name, make, blk):
+                """every address of every fully defined ROM must be readable: an exception is a finding"""
+                t = -1
+                try:
+                    sim = make(blk)
+                    for t, s in enumerate(steps):
+                        sim.step(dict(s))
+                    traces[name] = sim.tracer.trace
+                except Exception as e:
+                    ctx.spec_violation('rom:%s-raises-%s' % (name, type(e).__name__),
+                                       '%s raised %s (%s) on ROMs whose every address is defined (pad_with_zeros included)'
+                                       % (name, type(e).__name__, str(e)[:120]),
+                                       {'roms': rom_info, 'cycle': t, 'inputs': steps[t] if t >= 0 else 'construction'})
+            mk_sim = lambda b: pyrtl.Simulation(tracer=pyrtl.SimulationTrace(block=b), block=b)
+            mk_fast = lambda b: pyrtl.FastSimulation(tracer=pyrtl.SimulationTrace(block=b), block=b)
+            mk_comp = lambda b: pyrtl.CompiledSimulation(tracer=pyrtl.SimulationTrace(block=b), block=b)
+            run_rom('sim', mk_sim, block)
+            run_rom('fast', mk_fast, block)
+            run_rom('compiled', mk_comp, block)
             post = pyrtl.synthesize(update_working_block=False, block=block)
-            sim = pyrtl.Simulation(tracer=pyrtl.SimulationTrace(block=post), block=post)
-            for s in steps:
-                sim.step(dict(s))
-            traces['synth'] = sim.tracer.trace
+            run_rom('synth', mk_sim, post)
+            run_rom('synth/fast', mk_fast, post)
             pyrtl.optimize(update_working_block=True, block=post)
-            sim = pyrtl.Simulation(tracer=pyrtl.SimulationTrace(block=post), block=post)
-            for s in steps:
-                sim.step(dict(s))
-            traces['synth+opt'] = sim.tracer.trace
+            run_rom('synth+opt', mk_sim, post)
+            run_rom('synth+opt/compiled', mk_comp, post)
             # Verilog: the initial block must list data[a] at every address
             buf = io.StringIO()
             pyrtl.output_to_verilog(buf, block=block)
@@ -1863,6 +1996,8 @@ def run(real_ctx):
         _timed(ctx, 'walk_part', walk_part, ctx, chk, [(1, 1, 3, [[], [(0, 1)], [(1, 1), (0, 0)]], [0, 1]),
                              (2, 1, 2, [[], [(1, 1)]], [0]),
                              (1, 2, 2, [[]], [0, 1]),
+                             (1, 0, 3, [[(1, 1)], [], [(0, 1), (1, 0)]], [0, 1], {'label': 'write-only memory (no read port), observed through inspect_mem'}),
+                             (2, 0, 2, [[(0, 1)]], [0], {'label': 'write-only memory (no read port), observed through inspect_mem'}),
                              (1, 1, 3, [[], [(0, 1)]], [0], {'wk': [('in', 'reg', 'reg', 0)], 'label': 'write data and enable from registers'}),
                              (1, 1, 2, [[(1, 1)]], [0], {'wk': [('reg', 'in', 'in', 0)], 'rk': ['reg'], 'label': 'write address and read address from registers'}),
                              (2, 1, 2, [[], [(0, 1), (1, 1)]], [0], {'wk': [('in', 'in', 'in', 0), ('in', 'in', 'c0', 0)], 'pred': lambda op: op[0][1][2] == 0, 'label': 'second port tied off (enable Const 0)'}),
@@ -1880,6 +2015,8 @@ def run(real_ctx):
                              (2, 1, 2, [[], [(1, 1)]], [0, 1]),
                              (1, 2, 3, [[], [(0, 1)]], [0, 1]),
                              (2, 2, 2, [[], [(1, 0)]], [0]),
+                             (1, 0, 4, [[(1, 1)], [], [(0, 1), (1, 0)]], [0, 1], {'label': 'write-only memory (no read port), observed through inspect_mem'}),
+                             (2, 0, 3, [[(0, 1)], []], [0, 1], {'label': 'write-only memory (no read port), observed through inspect_mem'}),
                              (1, 1, 4, [[], [(0, 1)]], [0], {'wk': [('in', 'reg', 'reg', 0)], 'label': 'write data and enable from registers'}),
                              (1, 1, 3, [[], [(1, 1)]], [0], {'wk': [('reg', 'in', 'in', 0)], 'rk': ['reg'], 'label': 'write address and read address from registers'}),
                              (2, 1, 2, [[], [(0, 1), (1, 1)]], [0], {'wk': [('in', 'in', 'in', 0), ('in', 'in', 'c0', 0)], 'pred': lambda op: op[0][1][2] == 0, 'label': 'second port tied off (enable Const 0)'}),
